@@ -43,7 +43,8 @@ class SigClassifier(BaseClassifier):
         self._tick(("fit", self.sid, tuple(ids)))
         # an object that is fitted again (instead of a fresh clone per fold) betrays itself in its predictions
         self.nfit_ = getattr(self, "nfit_", 0) + 1
-        self.sig_ = sum(ids) + (self.nfit_ - 1)
+        # ... and so does one that is not given exactly the feature columns (all columns but the target)
+        self.sig_ = sum(ids) + (self.nfit_ - 1) + (0 if list(X.columns) == ["dim_0", "dim_1"] else 1)
         self.classes_ = np.unique(y)
         self._is_fitted = True
         return self
@@ -51,7 +52,8 @@ class SigClassifier(BaseClassifier):
     def predict(self, X):
         ids = [int(round(X.iloc[i, 0].iloc[0])) for i in range(len(X))]
         self._tick(("predict", self.sid, tuple(ids)))
-        return np.array([(self.sig_ * 7 + self.sid * 3 + i) % 5 for i in ids])
+        bad = 0 if list(X.columns) == ["dim_0", "dim_1"] else 1
+        return np.array([(self.sig_ * 7 + self.sid * 3 + i + bad) % 5 for i in ids])
 
 
 def make_classifier():
@@ -61,7 +63,10 @@ def make_classifier():
 def dataset(d):
     """Instance ids 100*d + i are the (constant) values of the series, so records are self-describing."""
     ids = [100 * d + i for i in range(N_INST)]
-    return pd.DataFrame({"dim_0": [pd.Series([float(i)] * 4) for i in ids], "class_val": [i % 2 for i in ids]})
+    # the target is not the last column and the row labels are not 0..n-1: records identify instances by fold position
+    return pd.DataFrame({"dim_0": [pd.Series([float(i)] * 4) for i in ids], "class_val": [i % 2 for i in ids],
+                         "dim_1": [pd.Series([1.0, 2.0]) for _ in ids]},
+                        index=[50 + 3 * ((i * 5) % N_INST) for i in range(N_INST)])
 
 
 def honest(d, s, train_pos, pos):
